@@ -34,6 +34,14 @@ pub fn proj(v: &ReplicatedValue) -> Value {
     canon(serde_json::to_value(v).expect("ReplicatedValue serialises"))
 }
 pub fn proj_s(v: &ReplicatedValue) -> String { proj(v).to_string() }
+/// What convergence (C06) is about: the CRDT body with its stamps, the wrapper stamp used for
+/// conflict resolution and digests, and the expiry. The vector clock and the replication factor
+/// do not take part in choosing a value and are not part of what a replica serves.
+pub fn proj_conv_s(v: &ReplicatedValue) -> String {
+    let mut j = proj(v);
+    if let Value::Object(m) = &mut j { m.remove("vector_clock"); m.remove("replication_factor"); }
+    j.to_string()
+}
 
 /// Client-visible part only: what reads return (value / fields), liveness and expiry — no stamps.
 pub fn visible(v: &ReplicatedValue) -> Value {
